@@ -6,7 +6,8 @@
     is; in particular compiled alone or together makes no difference. *)
 From PM Require Import Model.Prelude Model.Domain Model.Automaton
   Model.Traversal Model.DomString Model.DomMatrix Cert.LabCheck Cert.WinCheck Proofs.AbsEquiv Proofs.StringExact Proofs.MatrixExact Properties.C03
-  Model.ManyGlue Proofs.ManyGlueProofs.
+  Model.ManyGlue Proofs.ManyGlueProofs
+  Model.DomPGKeys Model.DomPG Model.DomPGPattern Cert.PGCert Cert.WfCheck Proofs.PGSingleGood Proofs.PGAgree.
 
 Theorem c06_pattern_independent_acceptance :
   forall (K V M H P : Type) (D : DomOps K V M H P), DomEq D ->
@@ -91,6 +92,28 @@ Theorem c06_n_patterns_counts_compiled :
     compile convert FSkip pats = inr l -> n_patterns (pattern_table pats (map fst l)) = length l.
 Proof. exact @skip_n_patterns. Qed.
 
+(** port graphs: in general refuted (D10, Properties/C04.v); on pattern lists whose
+    automata only use keys of the first root — every set of single-root patterns —
+    a good pattern that sits at position i1 of one list and i2 of another (other
+    patterns around it, another order, duplicates, alone) is reported by the second
+    automaton whenever the first reports it, with the same bindings. *)
+Theorem c06_portgraph_runs_agree_on_single_root_pattern_sets :
+  forall (P : pghost) (root : N) cs nk (H : pghost)
+         (A1 : automaton pgkey pgpred) (L1 : labelling) css1 i1 fuel1 ms1 b1
+         (A2 : automaton pgkey pgpred) rk2 ids2 css2 pres2 i2 fuel2 ms2,
+    pg_cvec_full P root = Ok (cs, nk) -> lines_cover P root = true -> lines_sound P root = true ->
+    nodes_keyed P nk = true -> keys_distinct nk = true -> pg_good_pattern P root cs nk = true ->
+    root_linked P root = true -> pg_host_wfb P = true -> pg_host_wfb H = true ->
+    lab_ok pg_dom (fun _ => true) pg_atoms A1 L1 css1 = true -> nth_error css1 i1 = Some cs ->
+    run pg_dom fuel1 A1 H = Ok ms1 -> In (N.of_nat i1, b1) ms1 ->
+    wf_check pg_dom A2 rk2 ids2 = true -> cert_complete pg_entails pg_refutes A2 css2 pres2 = true ->
+    nth_error css2 i2 = Some cs -> nth_error pres2 i2 = Some true ->
+    aut_single_root A2 = true -> match_keys_in nk A2 (N.of_nat i2) = true ->
+    run pg_dom fuel2 A2 H = Ok ms2 ->
+    exists st keys b2, In st (au_states A2) /\ In (N.of_nat i2, keys) (a_matches st) /\ In (N.of_nat i2, b2) ms2
+      /\ forall k, In k keys -> pgget b2 k = pgget b1 k.
+Proof. exact pg_runs_agree. Qed.
+
 Example c06_example_skip :
   compile (fun p : N => if N.eqb p 7 then inl tt else inr [p]) FSkip [1; 7; 3]%N = inr [(0, [1]); (2, [3])]%N
   /\ compile (fun p : N => if N.eqb p 7 then inl tt else inr [p]) FFail [1; 7; 3]%N = inl tt.
@@ -103,3 +126,4 @@ Print Assumptions c06_get_pattern_reflects_compiled.
 Print Assumptions c06_n_patterns_counts_compiled.
 Print Assumptions c06_matrix_runs_agree.
 Print Assumptions c06_string_runs_agree.
+Print Assumptions c06_portgraph_runs_agree_on_single_root_pattern_sets.
